@@ -78,6 +78,16 @@ theorem C10_contained (ctx : Ctx) (v : V) (s : Shape) (t : LT) (ps : List Paint)
     (h : v.render ctx s t = .ok ps) : ∀ p ∈ ps, ∀ o, InWindow p.shape o → InWindow s o :=
   fun p hp o ho => render_sub ctx v s t ps h p hp o ho
 
+/-- **C10, the image cell.**  An image view writes one cell, at the origin of the surface it holds after
+`apply_to`, that the terminal later expands to `Cell::size` cells.  Because the image is cropped to the
+size of that (clipped) surface first, the cells the image cell covers never reach past the surface —
+for every image size, every pixels-per-cell value and every surface size. -/
+theorem C10_image_extent (ppc : Size) (ph pw sh sw : Nat) (hh : sh < 2 ^ 64) (hw : sw < 2 ^ 64) :
+    (imageExtent ppc ph pw sh sw).h ≤ sh ∧ (imageExtent ppc ph pw sh sw).w ≤ sw :=
+  imageExtent_le ppc ph pw sh sw hh hw
+
+example : imageExtent ⟨37, 15⟩ 300 300 2 8 = ⟨2, 8⟩ ∧ imageExtent ⟨37, 15⟩ 40 20 5 8 = ⟨2, 2⟩ := by decide
+
 /-- **C10, paints where recorded (first part): every writer is handed exactly a recorded rectangle.**
 `root` is any surface, `W` the rectangle of it that `render` is given (`winShape root W`, `none` = an
 empty surface), `t` any layout tree.  `clip W pos size` is plain rectangle arithmetic: the rectangle
